@@ -626,3 +626,170 @@ def gen_settings_tables(read):
         "",
     ]
     return "SettingsTables.v", "\n".join(lines)
+
+
+# ------------------------------------------------------------------------------------------------ generated help / version
+def gen_build_tables(read):
+    """Command::_check_help_and_version: the auto-generated `--help` / `--version` arguments and the `help` subcommand
+    (names, shorts, actions, guards, order), Id::HELP / Id::VERSION, the three getters that guard them."""
+    csrc = strip_comments(read("clap_builder/src/builder/command.rs"))
+    isrc = strip_comments(read("clap_builder/src/util/id.rs"))
+    rsrc = strip_comments(read("clap_builder/src/builder/range.rs"))
+    ids = dict(re.findall(r'pub\(crate\)\s+const\s+(\w+)\s*:\s*&\'static\s+str\s*=\s*"([^"\\]*)"\s*;', isrc))
+    for k in ("HELP", "VERSION"):
+        if k not in ids:
+            die("util/id.rs: constant Id::%s not found" % k)
+    b = norm(fn_body(csrc, r"pub\(crate\)\s+fn\s+_check_help_and_version\s*\(\s*&mut\s+self\s*,\s*expand_help_tree\s*:\s*bool\s*\)",
+                     "Command::_check_help_and_version"))
+    b = re.sub(r'debug!\((?:[^()"]|"(?:[^"\\]|\\.)*")*\); ?', "", b)
+    shape = (
+        r"self\.long_help_exists = self\.long_help_exists_\(\); "
+        r"if !self\.(?P<hguard>\w+)\(\) \{ "
+        r"let mut arg = Arg::new\(Id::(?P<hid>\w+)\) ?\.short\('(?P<hshort>.)'\) ?\.long\(\"(?P<hlong>[^\"]*)\"\) ?\.action\(ArgAction::(?P<haction>\w+)\); "
+        r"if self\.long_help_exists \{ arg = arg ?\.help\(\"[^\"]*\"\) ?\.long_help\(\"[^\"]*\"\); \} else \{ arg = arg\.help\(\"[^\"]*\"\); \} "
+        r"self\.args\.push\(arg\); \} "
+        r"if !self\.(?P<vguard>\w+)\(\) \{ "
+        r"let arg = Arg::new\(Id::(?P<vid>\w+)\) ?\.short\('(?P<vshort>.)'\) ?\.long\(\"(?P<vlong>[^\"]*)\"\) ?\.action\(ArgAction::(?P<vaction>\w+)\) ?\.help\(\"[^\"]*\"\); "
+        r"self\.args\.push\(arg\); \} "
+        r"if !self\.is_set\(AppSettings::(?P<sguard>\w+)\) \{ "
+        r"let help_about = \"(?P<about>[^\"]*)\"; "
+        r"let mut help_subcmd = if expand_help_tree \{ .*? \} else \{ "
+        r"Command::new\(\"(?P<sname>[^\"]*)\"\)\.about\(help_about\)\.arg\( "
+        r"Arg::new\(\"(?P<said>[^\"]*)\"\) ?\.action\(ArgAction::(?P<saction>\w+)\) ?\.num_args\((?P<snum>[^()]*)\) ?\.value_name\(\"[^\"]*\"\) ?\.help\(\"[^\"]*\"\), \) \}; "
+        r"self\._propagate_subcommand\(&mut help_subcmd\); .* self\.subcommands\.push\(help_subcmd\); \}")
+    m = re.fullmatch(shape, b)
+    if not m:
+        die("Command::_check_help_and_version no longer has the shape the model transcribes (Parse/Build.v help_arg, version_arg, "
+            "help_subcommand_arg, bs_help_version): " + b[:600])
+    for k in ("hid", "vid"):
+        if m.group(k) not in ids:
+            die("Command::_check_help_and_version: unknown Id::" + m.group(k))
+    if m.group("snum").strip() != "..":
+        die("Command::_check_help_and_version: the `help` subcommand's argument no longer has num_args(..): " + m.group("snum"))
+    if not re.search(r"impl\s+From<std::ops::RangeFull>\s+for\s+ValueRange\s*\{\s*fn\s+from\s*\(\s*_\s*:\s*std::ops::RangeFull\s*\)\s*->\s*Self\s*\{\s*Self::FULL\s*\}\s*\}", rsrc):
+        die("`impl From<RangeFull> for ValueRange` no longer returns Self::FULL")
+    # the guards
+    guards = []
+    for g in (m.group("hguard"), m.group("vguard")):
+        gb = norm(fn_body(csrc, r"pub\s+fn\s+%s\s*\(\s*&self\s*\)\s*->\s*bool" % g, "Command::" + g))
+        gm = re.fullmatch(r"self\.is_set\(AppSettings::(\w+)\)(?: \|\| \(self\.version\.is_none\(\) && self\.long_version\.is_none\(\)\))?", gb)
+        if not gm:
+            die("Command::%s has an unknown shape: %s" % (g, gb))
+        guards.append((g, gm.group(1), "version.is_none()" in gb))
+
+    # ---- mkeymap.rs: which keys an argument gets, in which order; get = first key that matches
+    msrc = strip_comments(read("clap_builder/src/mkeymap.rs"))
+    kb = norm(fn_body(msrc, r"fn\s+append_keys\s*\(\s*keys\s*:\s*&mut\s+Vec<Key>\s*,\s*arg\s*:\s*&Arg\s*,\s*index\s*:\s*usize\s*\)", "mkeymap::append_keys"))
+    km = re.fullmatch(r"if let Some\(pos_index\) = arg\.index \{ let key = KeyType::Position\(pos_index\); keys\.push\(Key \{ key, index \}\); \} else \{ (.*) \}", kb)
+    if not km:
+        die("mkeymap::append_keys no longer has the shape `if let Some(pos_index) = arg.index { Position } else { .. }`: " + kb)
+    key_sources = []
+    rest = km.group(1).strip()
+    while rest:
+        m1 = re.match(r"if let Some\((\w+)\) = arg\.(\w+)(?:\.clone\(\))? \{ let key = KeyType::(\w+)\(\1(?:\.into\(\))?\); keys\.push\(Key \{ key, index \}\); \} ?", rest)
+        m2 = re.match(r"for \((\w+), _\) in arg\.(\w+)\.iter\(\) \{ let key = KeyType::(\w+)\(\*?\1(?:\.into\(\))?\); keys\.push\(Key \{ key, index \}\); \} ?", rest)
+        mm = m1 or m2
+        if not mm:
+            die("mkeymap::append_keys: cannot read the key source at: " + rest[:160])
+        key_sources.append((mm.group(2), mm.group(3), "one" if m1 else "each"))
+        rest = rest[mm.end():].strip()
+    gb = norm(fn_body(msrc, r"pub\(crate\)\s+fn\s+get<K: \?Sized>\s*\(\s*&self\s*,\s*key\s*:\s*&K\s*\)\s*->\s*Option<&Arg>\s*where\s*KeyType\s*:\s*PartialEq<K>\s*,?", "MKeyMap::get"))
+    if gb != "self.keys .iter() .find(|k| &k.key == key) .map(|k| &self.args[k.index])":
+        die("MKeyMap::get is no longer `keys.iter().find(|k| &k.key == key).map(|k| &self.args[k.index])` (first matching key): " + gb)
+    bb = norm(fn_body(msrc, r"pub\(crate\)\s+fn\s+_build\s*\(\s*&mut\s+self\s*\)", "MKeyMap::_build"))
+    if "for (i, arg) in self.args.iter().enumerate() { append_keys(&mut self.keys, arg, i); }" not in bb:
+        die("MKeyMap::_build no longer appends the keys of every argument in argument order: " + bb)
+
+    # ---- arg.rs / arg_settings.rs: the bool setters and getters of Arg over ArgSettings; the `flags` of the two spec readers
+    asrc = strip_comments(read("clap_builder/src/builder/arg.rs"))
+    ssrc = strip_comments(read("clap_builder/src/builder/arg_settings.rs"))
+    avariants = enum_variants(ssrc, r"pub\(crate\)\s+enum\s+ArgSettings", "enum ArgSettings")
+    arg_setters, arg_getters = [], []
+    for name, header, body in split_fns(asrc):
+        nb = norm(body)
+        if "ArgSettings::" not in nb:
+            continue
+        sm = re.fullmatch(r"if yes \{ self\.setting\(ArgSettings::(\w+)\) \} else \{ self\.unset_setting\(ArgSettings::(\w+)\) \}", nb)
+        gm = re.fullmatch(r"self\.is_set\(ArgSettings::(\w+)\)", nb)
+        if sm and re.search(r"\(\s*self\s*,\s*yes\s*:\s*bool\s*\)\s*->\s*Self", header):
+            if sm.group(1) != sm.group(2) or sm.group(1) not in avariants:
+                die("Arg::%s sets %s but unsets %s" % (name, sm.group(1), sm.group(2)))
+            arg_setters.append((name, sm.group(1)))
+        elif gm and re.search(r"\(\s*&self\s*\)\s*->\s*bool", header):
+            if gm.group(1) not in avariants:
+                die("Arg::%s reads an unknown ArgSettings::%s" % (name, gm.group(1)))
+            arg_getters.append((name, gm.group(1)))
+        else:
+            die("Arg::%s mentions ArgSettings but is neither a `if yes { setting } else { unset_setting }` setter nor a "
+                "`self.is_set(ArgSettings::V)` getter: %s" % (name, nb[:200]))
+    if not arg_setters or not arg_getters:
+        die("no ArgSettings setters / getters found in arg.rs")
+    for h, shape in (("setting", r"self\.settings\.set\(setting\); self"), ("unset_setting", r"self\.settings\.unset\(setting\); self")):
+        hb = norm(fn_body(asrc, r"pub\(crate\)\s+fn\s+%s\s*\(\s*mut\s+self\s*,\s*setting\s*:\s*ArgSettings\s*\)\s*->\s*Self" % h, "Arg::" + h))
+        if not re.fullmatch(shape, hb):
+            die("Arg::%s has an unknown shape: %s" % (h, hb))
+    with open(os.path.join(ROOT, "ocaml", "common_parse", "spec.ml"), encoding="utf-8") as f:
+        osrc = f.read()
+    fm = re.search(r'\| "flags" ->\s*Stdlib\.List\.iter \(fun f -> match Sx\.sym f with(.*?)\| x -> failwith \("flag " \^ x\)\) args', osrc, re.S)
+    if not fm:
+        die("ocaml/common_parse/spec.ml: the `flags` item of build_arg was not found")
+    spec_flags = []
+    for line in [l.strip() for l in fm.group(1).split("\n") if l.strip()]:
+        am = re.fullmatch(r'\| "(\w+)" -> a := \{ !a with (\w+) = true \}', line)
+        if not am:
+            die("spec.ml build_arg flags: arm with an unexpected shape: " + line)
+        spec_flags.append((am.group(1), am.group(2)))
+    with open(os.path.join(ROOT, "harness", "src", "modes", "parse.rs"), encoding="utf-8") as f:
+        hsrc = f.read()
+    hm = re.search(r'a = match f\.sym\(\) \{(.*?)x => panic!\("flag \{x\}"\),', hsrc, re.S)
+    if not hm:
+        die("harness/src/modes/parse.rs: the `(flags ...)` match was not found")
+    harness_flags = []
+    for line in [l.strip() for l in hm.group(1).split("\n") if l.strip()]:
+        am = re.fullmatch(r'"(\w+)" => a\.(\w+)\(true\),', line)
+        if not am:
+            die("harness/src/modes/parse.rs: flag arm with an unexpected shape: " + line)
+        harness_flags.append((am.group(1), am.group(2)))
+
+    def row(i, s, l, a):
+        return "(%s, %s, %s, %s)" % (cstr(ids[i]), cstr(s), cstr(l), cstr(a))
+
+    def pairs(l):
+        return clist(["(%s, %s)" % (cstr(a_), cstr(b_)) for a_, b_ in l])
+    lines = [
+        "(* GENERATED by translators/builder_tables.py from Command::_check_help_and_version (clap_builder/src/builder/command.rs),",
+        "   util/id.rs and range.rs -- do not edit. *)",
+        "From Coq Require Import List String.",
+        "Import ListNotations.",
+        "Open Scope string_scope.",
+        "",
+        "(* the generated arguments: (id, short, long, action); pushed in this order, each behind its guard *)",
+        "Definition gen_help_arg : string * string * string * string := " + row(m.group("hid"), m.group("hshort"), m.group("hlong"), m.group("haction")) + ".",
+        "Definition gen_version_arg : string * string * string * string := " + row(m.group("vid"), m.group("vshort"), m.group("vlong"), m.group("vaction")) + ".",
+        "(* guards `if !self.<getter>()`: (getter, the AppSettings variant it reads through is_set, `|| (version.is_none() && long_version.is_none())`) *)",
+        "Definition gen_help_guard : string * string * bool := (%s, %s, %s)." % (cstr(guards[0][0]), cstr(guards[0][1]), "true" if guards[0][2] else "false"),
+        "Definition gen_version_guard : string * string * bool := (%s, %s, %s)." % (cstr(guards[1][0]), cstr(guards[1][1]), "true" if guards[1][2] else "false"),
+        "(* the `help` subcommand (non-expanded form): guard `!self.is_set(AppSettings::<V>)`, name, about, its argument (id, action);",
+        "   the argument has num_args(..) = ValueRange::FULL and one value name *)",
+        "Definition gen_help_sub_guard : string := %s." % cstr(m.group("sguard")),
+        "Definition gen_help_sub_name : string := %s." % cstr(m.group("sname")),
+        "Definition gen_help_sub_about : string := %s." % cstr(m.group("about")),
+        "Definition gen_help_sub_arg : string * string := (%s, %s)." % (cstr(m.group("said")), cstr(m.group("saction"))),
+        "",
+        "(** mkeymap.rs append_keys: an argument with an index gets the one key Position(index); otherwise, in this order,",
+        "    (field of Arg, KeyType constructor, \"one\" = `if let Some(x) = arg.<field>` / \"each\" = `for (x, _) in arg.<field>.iter()`);",
+        "    MKeyMap::_build appends per argument in argument order, MKeyMap::get returns the argument of the FIRST equal key *)",
+        "Definition gen_key_sources : list (string * string * string) := "
+        + clist(["(%s, %s, %s)" % (cstr(f), cstr(k), cstr(q)) for f, k, q in key_sources]) + ".",
+        "",
+        "(** arg.rs: every `fn x(self, yes: bool) -> Self { if yes { self.setting(ArgSettings::V) } else { self.unset_setting(ArgSettings::V) } }`",
+        "    as (x, V), every `fn g(&self) -> bool { self.is_set(ArgSettings::V) }` as (g, V) *)",
+        "Definition gen_arg_setters : list (string * string) := " + pairs(arg_setters) + ".",
+        "Definition gen_arg_getters : list (string * string) := " + pairs(arg_getters) + ".",
+        "(** the `(flags ...)` item of an argument spec: ocaml/common_parse/spec.ml (flag name, field of Cmd.arg set to true) and",
+        "    harness/src/modes/parse.rs (flag name, Arg method called with `true`) *)",
+        "Definition gen_spec_arg_flags : list (string * string) := " + pairs(spec_flags) + ".",
+        "Definition gen_harness_arg_flags : list (string * string) := " + pairs(harness_flags) + ".",
+        "",
+    ]
+    return "BuildTables.v", "\n".join(lines)
